@@ -126,6 +126,8 @@ def run_c19(ctx, spec, out):
         for b in ds["backends"]:
             flavour, flags = worldgen.pick_flavour(rng)
             wb = worldgen.full_backend(schema, b, flavour, flags, rng)
+            # what the configuration says about the backend besides its address (Thruk groups backends by section)
+            wb["section"] = rng.choice(["", "", "europe/dc1", "asia"])
             wbs.append(wb)
             mbs.append(worldgen.model_backend(schema, wb, flags))
         cfg = {"service_auth": ds["service_auth"], "group_auth": ds["group_auth"]}
@@ -150,7 +152,11 @@ def run_c19(ctx, spec, out):
                   "GET services\nColumns: host_name description comments downtimes peer_key\nOutputFormat: wrapped_json\nSort: host_name asc\nSort: description asc\n\n",
                   "GET hosts\nStats: comments >= 1\nStats: downtimes >= 1\nOutputFormat: json\n\n",
                   "GET services\nColumns: host_name description\nFilter: comments != \nFilter: downtimes != \nOr: 2\nOutputFormat: wrapped_json\n\n",
-                  "GET hosts\nColumns: name\nFilter: name =~ %s\nOutputFormat: wrapped_json\n\n" % rng.choice(["HOST_1", "web1", "ÜBER", "zeta"])]
+                  "GET hosts\nColumns: name\nFilter: name =~ %s\nOutputFormat: wrapped_json\n\n" % rng.choice(["HOST_1", "web1", "ÜBER", "zeta"]),
+                  # per-backend attribution: key, name and section of the backend every row stems from
+                  "GET status\nColumns: peer_key peer_name peer_section program_start\nOutputFormat: wrapped_json\n\n",
+                  "GET sites\nColumns: peer_key peer_name section\nOutputFormat: json\n\n",
+                  "GET hosts\nColumns: name peer_key\nFilter: peer_section = europe/dc1\nOutputFormat: json\n\n"]
         # the columns only some backends have (they depend on what each backend can do): every backend's own set has to
         # make it through the export
         for tname, keys in (("hosts", "name"), ("services", "host_name description"), ("contacts", "name")):
